@@ -87,7 +87,17 @@ class Gen16:
 
     def loop(self, depth, env_names, budget):
         r = self.r
-        kind = r.choice(["count", "count", "count-var", "while", "until"])
+        kind = r.choice(["count", "count", "count-var", "while", "until", "count-dyn"])
+        if kind == "count-dyn":
+            # the count is an expression over a variable that the body itself changes: it is fixed when the loop is entered
+            self.counters += 1
+            m = "m%d" % self.counters
+            n = r.choice([1, 2, 3, 4])
+            delta = r.choice([-1, -1, 1, 2])
+            self.feats.add("loop.count-dyn")
+            self.nontrivial = True
+            body = self.block(depth + 1, env_names, budget)
+            return ("count-dyn", n, m, delta, body)
         if kind in ("count", "count-var"):
             n = r.choice([0, 1, 2, 3, 4, 6])
             var = ("i%d" % depth) if (kind == "count-var" or r.random() < 0.6) else None
@@ -154,6 +164,13 @@ def render(block, ind="  "):
             out.append("%s<loop%s>" % (ind, a))
             out += render(body, ind + "  ")
             out.append("%s</loop>" % ind)
+        elif t == "count-dyn":
+            _, n, m, delta, body = node
+            out.append('%s<var %s="%d"/>' % (ind, m, n))
+            out.append('%s<loop count="%s">' % (ind, ("$" + m) if delta < 0 else "{{$%s}}" % m))
+            out += render(body, ind + "  ")
+            out.append('%s  <var %s="{{$%s + %d}}"/>' % (ind, m, m, delta))
+            out.append("%s</loop>" % ind)
         elif t in ("while", "until"):
             _, c, limit, body = node
             out.append('%s<var %s="0"/>' % (ind, c))
@@ -198,6 +215,12 @@ def unroll(block, env, ind="  "):
                     env = dict(env, **{var: v})
                 out += unroll(body, env, ind)
                 v = v + st
+        elif t == "count-dyn":
+            _, n, m, delta, body = node
+            out.append('%s<var %s="%d"/>' % (ind, m, n))
+            for _k in range(n):
+                out += unroll(body, env, ind)
+                out.append('%s<var %s="{{$%s + %d}}"/>' % (ind, m, m, delta))
         elif t == "while":
             _, c, limit, body = node
             out.append('%s<var %s="0"/>' % (ind, c))
